@@ -8,13 +8,14 @@
     is not a homomorphism on tokens: adjacent [>] lex as [>>].
 
     What is proved: the full statement for the table-driven families (71 of the 85 constructors)
-    and, over them, nesting to ANY depth of ARRAY<..>, Nullable(..), LowCardinality(..) with the
-    [>>] trailing-bracket bookkeeping ([C18_round_trip_partial]).  The remaining hand-modelled
-    constructors (square-bracket and parenthesised arrays, STRUCT, UNION, Map, Tuple, Nested,
+    and, over them, nesting to ANY depth of ARRAY<..>, square-bracket suffixes [..[]]/[..[n]],
+    Nullable(..), LowCardinality(..) with the [>>] trailing-bracket bookkeeping
+    ([C18_round_trip_partial]).  The remaining hand-modelled constructors (parenthesised arrays, STRUCT, UNION, Map, Tuple, Nested,
     ENUM/SET, DateTime64, FixedString, custom names) are executable in the model and tied to the
     implementation by correspondence on every run, but their round trip is not proved: the full
-    statement is kept visible as [C18_round_trip_full_statement]; it is FALSE without the
-    known-class exclusions, as the [_refuted] lemmas show on the model itself. *)
+    statement is kept visible as [C18_round_trip_full_statement]; two parser defects
+    that made it false were repaired in /repo (6cef4ad); [C18_custom_string_modifier_refuted]
+    shows the remaining class on the model itself. *)
 Require Import SqlV.Base SqlV.DataTypeRT SqlV.DataTypeRTProofs SqlVGen.DataTypeTables.
 
 (** ** Generated side conditions *)
@@ -50,14 +51,17 @@ Proof. exact (fun d => leaf_parse dt_tables d c18_family_consistent). Qed.
 Print Assumptions C18_leaf_round_trip.
 
 (** Nesting unbounded: the invariant of the [>>] bookkeeping.  [m] closing brackets of enclosing
-    ARRAY<..> are pending; the child reports whether it consumed one of them as the second half of
-    a [>>]. *)
+    ARRAY<..> are pending and [l] square-bracket suffixes follow the type; the child reports whether
+    it consumed one of the pending brackets as the second half of a [>>] — and then leaves any
+    following [[] to its parent (repaired in /repo 6cef4ad). *)
 Theorem C18_angle_bookkeeping :
   forall (d : list N) (t : dt), PF dt_tables d t ->
-  forall (fuel m : nat) (rest : list tok), (depth t < fuel)%nat -> follow_top dt_tables rest = true ->
-    parse_helper dt_tables d fuel (glue (print_dt dt_tables t ++ repeat TGt m ++ rest)) =
-      POk t (flag t m) (close (m - (if flag t m then 1 else 0)) ++ glue rest).
-Proof. exact (fun d => nest_parse dt_tables d c18_family_consistent). Qed.
+  forall (fuel : nat) (l : list (option N)) (m : nat) (rest : list tok),
+    (depth t < fuel)%nat -> forallb (size_ok d) l = true -> cond_top dt_tables m rest ->
+    parse_helper dt_tables d fuel (glue (print_dt dt_tables t ++ sufx l ++ repeat TGt m ++ rest)) =
+      POk (wrapsq t l) (match l with [] => flag t m | _ => false end)
+          (close (m - (match l with [] => if flag t m then 1 else 0 | _ => 0 end)) ++ glue rest).
+Proof. exact (fun d => nest_inv dt_tables d c18_family_consistent). Qed.
 Print Assumptions C18_angle_bookkeeping.
 
 Theorem C18_round_trip_partial :
@@ -108,31 +112,41 @@ Proof. vm_compute. reflexivity. Qed.
 Definition C18_round_trip_full_statement : Prop :=
   forall (d : list N) (t : dt),
     parse_dt dt_tables d (print_dt dt_tables t) = POk t false [] ->
-    known_angle_class d t = false ->
     parse_dt dt_tables d (glue (print_dt dt_tables t)) = POk t false [].
 (** Not proved beyond [C18_stand_alone_partial]; every run evaluates it (through the
     implementation and through the model) on the enumerated values. *)
 
 Definition dINT : dt := DOptLen (s2l "Int") None.
 
-(** KNOWN_FINDINGS angle-close:even-run-then-bracket — [ARRAY<ARRAY<INT>>[]]: a value the
-    parser produces (for [ARRAY< ARRAY< INT > >[]]) whose printed text parses to another value. *)
-Lemma C18_bracket_after_shr_refuted :
+(** Repaired in /repo 6cef4ad (was KNOWN_FINDINGS angle-close:even-run-then-bracket):
+    [ARRAY<ARRAY<INT>>[]] — the value the parser produces for [ARRAY< ARRAY< INT > >[]] now comes
+    back from its printed (glued) text.  It is an instance of [C18_stand_alone_partial]. *)
+Lemma C18_bracket_after_shr :
   let t := DArraySquare (DArrayAngle (DArrayAngle dINT)) None in
-  parse_dt dt_tables (s2l "generic") (print_dt dt_tables t) = POk t false []
-  /\ parse_dt dt_tables (s2l "generic") (glue (print_dt dt_tables t))
-     = POk (DArrayAngle (DArraySquare (DArrayAngle dINT) None)) false []
-  /\ known_angle_class (s2l "generic") t = true.
-Proof. vm_compute. repeat split; reflexivity. Qed.
+  PF dt_tables (s2l "generic") t
+  /\ parse_dt dt_tables (s2l "generic") (glue (print_dt dt_tables t)) = POk t false [].
+Proof.
+  split; [|vm_compute; reflexivity].
+  apply PF_square; [reflexivity|].
+  repeat (apply PF_angle; [vm_compute; reflexivity | vm_compute; reflexivity | vm_compute; reflexivity | ]).
+  apply PF_leaf. vm_compute. reflexivity.
+Qed.
 
-(** KNOWN_FINDINGS angle-close:struct-even-run-then-comma — [STRUCT<a STRUCT<ARRAY<INT>>, b INT>] *)
-Lemma C18_struct_comma_after_shr_refuted :
+(** Repaired in /repo 6cef4ad (was angle-close:struct-even-run-then-comma):
+    [STRUCT<a STRUCT<ARRAY<INT>>, b INT>] parses back.  STRUCT is outside the proved fragment
+    ([_partial]): this is a computed instance on the model, tied to the implementation by the
+    correspondence run. *)
+Lemma C18_struct_comma_after_shr :
   let a := Id None (s2l "a") in let b := Id None (s2l "b") in
   let t := DStruct [(Some a, DStruct [(None, DArrayAngle dINT)] BAngle); (Some b, dINT)] BAngle in
   parse_dt dt_tables (s2l "bigquery") (print_dt dt_tables t) = POk t false []
-  /\ parse_dt dt_tables (s2l "bigquery") (glue (print_dt dt_tables t)) = PErr
-  /\ known_angle_class (s2l "bigquery") t = true.
-Proof. vm_compute. repeat split; reflexivity. Qed.
+  /\ parse_dt dt_tables (s2l "bigquery") (glue (print_dt dt_tables t)) = POk t false [].
+Proof. vm_compute. split; reflexivity. Qed.
+
+(** KNOWN_FINDINGS angle-close:pg-triple-gt is a lexer matter (PostgreSQL makes one operator token
+    of [>>>]); on tokens as [glue] delivers them the model has no defect left in the angle
+    bookkeeping: the classes of [known_angle_class] other than the PostgreSQL one are kept only
+    so that the check notices if they come back. *)
 
 (** KNOWN_FINDINGS custom-modifier:not-a-token — the parser stores a quoted modifier without its
     quotes; the value is outside what the printer can spell. *)
